@@ -46,8 +46,18 @@ def r1(ctx):
             continue
         v = const_value(d["stmt"]["rv"]["op"]["const"])
         if v == 1:
-            # must be guarded by equality with 'host' / ':authority' of a signed header element
+            # must be guarded by equality with 'host' / ':authority' of a signed header element; every DIRECT way into the
+            # block (the arms of a `||`) must be such an equality
             names = set()
+            for (a, s) in b.control_deps().get(d["block"], ()):
+                c = b.cond_of_switch(a)
+                tr = b.truth_of_edge(a, s)
+                if c and c.get("neg") and tr is not None:
+                    tr = not tr
+                if not (c and c["kind"] == "call" and re.search(r"PartialEq::eq$", c["callee"]) and tr is True):
+                    if c and c["kind"] == "discr":
+                        continue  # iterator Some edge
+                    bad = True
             for a, s, c, truth in guard_conditions(b, d["block"]):
                 if c["kind"] == "call" and re.search(r"PartialEq::eq$", c["callee"]) and truth is True:
                     t = c["term"]
@@ -196,6 +206,11 @@ def r3(ctx):
             yield VIOL("C05-R3", "get_auth_parameters/%s" % acc, "; ".join(problems), where=b.span_of_block(bi))
         else:
             yield PASS("C05-R3", "get_auth_parameters/%s" % acc, "Err(SignatureDoesNotMatch) under the required conditions (lower-cased, membership in signed_headers)", [site(b, bi, acc)])
+    # the requirement lists are enforced in full: no adaptor truncates/filters the iteration
+    for bi, t in b.calls(r"Iterator::(take|skip|filter|filter_map|step_by|skip_while|take_while|rev|nth|last|find|position)$|slice::<impl \[T\]>::(first|last|get|split_at|split_first|split_last|chunks\w*)$"):
+        sl = b.slice_op(t["args"][0])
+        if sl.has_call(r"SignedHeaderRequirements::\w+$") or sl.has_field("signed_headers"):
+            yield VIOL("C05-R3", "get_auth_parameters/list-adaptor:" + t["callee"].split("::")[-1], "a requirement list / the signed-header list passes through `%s` before being enforced (entries can be skipped)" % t["callee"], where=b.span_of_block(bi))
     for k in sites:
         if k not in want:
             yield VIOL("C05-R3", "get_auth_parameters/unattributed-exit/" + k, "a signed-header error exit is fed by accessor set `%s`" % k, where=b.span_of_block(sites[k][0][0]))
